@@ -325,7 +325,7 @@ theorem phone_extract_spec (E : SeqEnv) (source : List Nat) : ∀ r ∈ phoneExt
   phoneExtract_spec E source
 
 /-- every end the matcher reports lies at or after the start and inside the string (any regex) -/
-theorem match_inside_text (T : Tables) (s : Array Nat) (r : RE) (i j : Nat) (h : Matches T r s i j) :
+theorem ends_inside_text (T : Tables) (s : Array Nat) (r : RE) (i j : Nat) (h : Matches T r s i j) :
     i ≤ j ∧ (i ≤ s.size → j ≤ s.size) := ends_bounds r i j h
 
 /-- `9 00-206-555-0123`: the candidate `206-555-0123` is re-spanned to `00-206-555-0123` (engine's tables) -/
